@@ -45,6 +45,7 @@ pub mod c42;
 pub mod c43;
 
 pub mod sqlprobe;
+pub mod dmlengine;
 
 pub fn dispatch(a: &Args) -> i32 {
     match a.prop.as_str() {
